@@ -55,7 +55,7 @@ def showOptNat : Option Nat → String
   | none => "none"
 
 /-! ### IND -/
-def runInd (name ns fs streams : String) : String :=
+def runInd (name ns fs streams : String) (withSpec : Bool := true) : String :=
   match parseNats ns, parseFloats fs, parseStreams streams with
   | some ns, some fs, some env =>
     match lookup (α := Float) name ns fs with
@@ -67,7 +67,7 @@ def runInd (name ns fs streams : String) : String :=
       let arrs : Array (Array Float) := (env.map List.toArray).toArray
       let n := (env.map List.length).foldl Nat.min (match env with | [] => 0 | l :: _ => l.length)
       let x (j i : Nat) : Float := (arrs.getD j #[]).getD i 0.0
-      let (specS, starts) := match Spec.formulas (α := Float) n name ns fs x with
+      let (specS, starts) := match (if withSpec then Spec.formulas (α := Float) n name ns fs x else none) with
         | none => ("_", "-")
         | some ps => (showStreams (ps.map (fun (a : PS Float) => a.toList n)),
                       ",".intercalate (ps.map (fun (a : PS Float) => toString a.start)))
@@ -176,7 +176,7 @@ def runRing (capS ops : String) : String :=
     let (_, outs) := (splitList ops ",").foldl step (RingBuf.new (0 : Int) cap, [])
     "ok " ++ ",".intercalate outs.reverse
 
-def intCmp : Cmp Int := { le := fun a b => a ≤ b, lt := fun a b => a < b, eq := fun a b => a == b }
+abbrev intCmp : Cmp Int := Bst.intCmp
 def floatCmp : Cmp Float := { le := fun a b => a ≤ b, lt := fun a b => a < b, eq := fun a b => a == b }
 
 def runBst (ops : String) (wantShape : Bool) : String :=
@@ -379,6 +379,7 @@ def runNet (name fixed cap as bs : String) : String :=
 def handle (line : String) : String :=
   match (line.trimAscii.toString).splitOn " " with
   | [id, "IND", name, ns, fs, streams] => id ++ " " ++ runInd name ns fs streams
+  | [id, "INDM", name, ns, fs, streams] => id ++ " " ++ runInd name ns fs streams false
   | [id, "STRAT", name, ns, fs, streams] => id ++ " " ++ runStrat name ns fs streams
   | [id, "TREE", prog, words, closings] => id ++ " " ++ runTree prog words closings
   | [id, "REPO", impl, ops] => id ++ " " ++ runRepo impl ops
